@@ -47,6 +47,12 @@ def exo_forms(H):
         vm = [1.0] * a + [3.0] * (n - a)
         out.append(('mult-' + tag, '[1.,]*%d + [3.]*%d' % (a, n - a), vm))
         out.append(('tuple-' + tag, '(' + ''.join(repr(v) + ', ' for v in vals) + ')', vals))
+    # the specification handed over as a Python object (list / tuple / float) in Parser.Exogenous, the way the solver itself stores the k axis
+    for extra, tag in ((0, 'exact'), (3, 'long')):
+        vals = [float(2 * i + 1) for i in range(H + 1 + extra)]
+        out.append(('obj-list-' + tag, list(vals), vals))
+        out.append(('obj-tuple-' + tag, tuple(vals), vals))
+    out.append(('obj-float', 2.5, 'scalar'))
     out.append(('float-scalar', '2.5', 'scalar'))
     out.append(('int-scalar', '3', 'int'))
     out.append(('unevaluable', 'foo(3)', None))
@@ -58,8 +64,9 @@ def exo_forms(H):
 
 def make_text(H, hsource, exo_rhs, icvar, icval, tvar, ref_exo=False):
     eqs = [('x', '.5*y + g'), ('y', '.5*x + m'), ('m', '2.5'), ('u', '2*x + 1'), ('p', '2.*3.'), ('q', 'g/2.'),
-           ('z', 'LAG_x + 1')]
-    lags = [('LAG_x', 'x')]
+           ('z', 'LAG_x + 1'), ('s', '2*x'), ('s1', 'x + 1 + 0*LAG_s1'), ('stock', 'y + 1 + 0*LAG_stock')]
+    # lag sources whose names end in the characters of the lag spelling, next to a variable with the shortened name
+    lags = [('LAG_x', 'x'), ('LAG_s1', 's1'), ('LAG_stock', 'stock')]
     ics = {}
     exos = [('g', exo_rhs)]
     if ref_exo:
@@ -102,10 +109,15 @@ def check_series(ts, H, exo_expect, icvar, icexp, tvar, case, getter=None):
         V('exogenous-not-verbatim', 'g = %r, supplied prefix %r' % (ts['g'], want))
     if icvar != 'none' and ts[icvar][0] != icexp:
         V('initial-condition-not-honoured:' + kind_of(icvar), '%s[0] = %r, stated initial condition %r' % (icvar, ts[icvar][0], icexp))
-    for k in range(1, H + 1):
-        if ts['LAG_x'][k] != ts['x'][k - 1]:
-            V('lag-identity-broken', 'LAG_x[%d] = %r, x[%d] = %r' % (k, ts['LAG_x'][k], k - 1, ts['x'][k - 1]))
-            break
+    for lag, src in (('LAG_x', 'x'), ('LAG_s1', 's1'), ('LAG_stock', 'stock')):
+        if lag not in ts or src not in ts:
+            if lag == 'LAG_x' or getter is None:
+                V('variable-missing:' + lag, '%s or %s missing from the results' % (lag, src))
+            continue
+        for k in range(1, H + 1):
+            if ts[lag][k] != ts[src][k - 1]:
+                V('lag-identity-broken', '%s[%d] = %r, %s[%d] = %r' % (lag, k, ts[lag][k], src, k - 1, ts[src][k - 1]))
+                break
     if tvar == 'default':
         if list(ts['t']) != [float(i) for i in range(H + 1)]:
             V('time-axis-not-k', 't = %r' % (ts['t'],))
@@ -128,7 +140,8 @@ def run_solver_case(H, hsource, form, icvar, icv, tvar, red):
     icval, icexp = icv
     case = {'path': 'solver', 'H': H, 'hsource': hsource, 'form': tag, 'icvar': icvar, 'icval': icval, 'tvar': tvar, 'reduction': red}
     ref_exo = exo_expect == 'REF'
-    blk = make_text(H, hsource, exo_rhs, icvar, icval, tvar, ref_exo)
+    as_object = tag.startswith('obj-')
+    blk = make_text(H, hsource, '[0.]*%d' % (H + 9) if as_object else exo_rhs, icvar, icval, tvar, ref_exo)
     if ref_exo:
         exo_expect = None
     must_reject = (exo_expect is None) or (isinstance(exo_expect, list) and len(exo_expect) < H + 1) or \
@@ -139,6 +152,8 @@ def run_solver_case(H, hsource, form, icvar, icv, tvar, red):
     err = None
     try:
         s.ParseString(blk.text())
+        if as_object:
+            s.Parser.Exogenous = [(v, (exo_rhs if v == 'g' else e)) for v, e in s.Parser.Exogenous]
         s.SolveEquation()
     except Exception as e:
         err = e
